@@ -61,8 +61,19 @@ def evalC01Shared (outs : List String) : Verdict :=
     else .prop "c01_soft_iff" s!"shared type-level error: adjacent={a0}, then non-adjacent={f}, then adjacent={a1} (must be hard, soft, hard)"
   | _, _, _ => .bad "C01 sharedsentinel"
 
+/-- the type's Verify returned a typed-nil `*VerifyError` (a non-nil error): the type-level check rejected, so the result is a
+    `*VerifyError`, hard when adjacent and soft otherwise; never a panic -/
+def evalC01TypedNil (outs : List String) : Verdict :=
+  match kv? outs "adjacent", kv? outs "nonadjacent" with
+  | some a, some f =>
+    if a == "PANIC" || f == "PANIC" then .prop "c01_total" s!"Verify panicked: adjacent={a} nonadjacent={f}" else
+    if a == "hard" && f == "soft" then .ok "typednil"
+    else .prop "c01_soft_iff" s!"typed-nil type-level error: adjacent={a} nonadjacent={f} (must be hard, soft)"
+  | _, _ => .bad "C01 typednil"
+
 def evalC01 (ins outs : List String) : Verdict :=
   if kv? ins "kind" == some "sharedsentinel" then evalC01Shared outs else
+  if kv? ins "kind" == some "typednil" then evalC01TypedNil outs else
   match kvNat? ins "tz", kvNat? ins "uz", kvNat? ins "tc", kvNat? ins "uc", kvNat? ins "th", kvNat? ins "uh",
         kvInt? ins "tt", kvInt? ins "ut", kvInt? ins "now", kvInt? ins "drift", (kv? ins "tv").bind TV.ofString?,
         outs.head?.bind ImplV.parse? with
